@@ -152,3 +152,7 @@ func VerifIsDefaultPartitioner(t *Task) bool {
 
 // VerifTaskState returns the task's current state.
 func VerifTaskState(t *Task) TaskState { return t.State() }
+
+// VerifTaskInvocation returns the invocation stored in a compiled task,
+// which is what the bigmachine executor transports to workers.
+func VerifTaskInvocation(t *Task) VerifInvocation { return VerifInvocation{t.Invocation} }
